@@ -241,14 +241,14 @@ func runLongFilters(t *testing.T, rc *core.RunCtx) {
 
 	// Calm phase.
 	for _, p := range w.peers {
-		if p.idx == 0 || p.role == "honest" || (p.role == "cf-liar" && provableOnly) {
+		// honest nodes stay, also those that serve a shorter (valid) chain
+		if p.idx == 0 || p.role == "honest" || p.role == "lagging" || (p.role == "cf-liar" && provableOnly) {
 			continue
 		}
 		p.setUp(false)
 		p.disconnect("calm phase")
 	}
 	w.peers[0].setView(honestTip)
-	w.peers[0].announce(false, 1)
 	const bound = 30 * time.Minute
 	atTip := func() bool {
 		bs, err := w.cs.BestBlock()
